@@ -16,6 +16,7 @@ import (
 	"path/filepath"
 	"regexp"
 	"runtime"
+	"sort"
 	"strconv"
 	"strings"
 	"sync"
@@ -38,7 +39,7 @@ import (
 //
 // Case line (decimal):
 //
-//	E <mode 0 direct|1 server> <hkind 0 nano|1 text|2 json, + 10 if addSource, + 20 if colorful> <threshold> <route 0|1> <method> <reqno>
+//	E <mode 0 direct|1 server> <hkind 0 nano|1 text|2 json, + 10 if addSource, + 20 if colorful, + 100 x derivation of the Logger> <threshold> <route 0|1> <method> <reqno>
 //	  <nacts> { <tag 0 nop|1 hdr|2 body|3 panic> <a> <b> }*
 //	  <escaped> <wire status> <nbody> { <chunk> }* <nrec> { <tag 1 BEG|2 ERR|3 END|0 ?> <code> <ip ok> <method> <uri owner> <id owner> <pv> }*
 //
@@ -95,8 +96,23 @@ const (
 	pvFunc                = 23
 	pvBigString           = 24 // 1 MiB string
 	pvBadUtf8             = 25 // invalid UTF-8 text
-	numPanicKinds         = 26
+	pvDeepStack           = 26 // string, raised 150 frames deep: the stack trace (the record's message) exceeds 16 KiB
+	pvLongError           = 27 // error whose Error() is 40 KiB long
+	pvString64K           = 28 // 64 KiB string
+	numPanicKinds         = 29
 )
+
+type longError struct{ n int }
+
+func (e longError) Error() string { return fmt.Sprintf("long-%d-", e.n) + strings.Repeat("z", 40<<10) }
+
+//go:noinline
+func deepRecursionThatMakesTheStackTraceOfThePanicLongerThanSixteenKibibytesBecauseTheTracebackPrintsAtMostOneHundredFramesAndEveryFrameMustThereforeBeLongerThanOneHundredAndSixtyFourBytes(depth, n int, pad1, pad2, pad3 uint64) int {
+	if depth == 0 {
+		panic(fmt.Sprintf("deep-%d", n))
+	}
+	return 1 + deepRecursionThatMakesTheStackTraceOfThePanicLongerThanSixteenKibibytesBecauseTheTracebackPrintsAtMostOneHundredFramesAndEveryFrameMustThereforeBeLongerThanOneHundredAndSixtyFourBytes(depth-1, n, pad1+1, pad2+2, pad3+3)
+}
 
 var zero = 0
 var emptyInts []int
@@ -182,6 +198,12 @@ func doPanic(kind, n int) {
 		panic(fmt.Sprintf("big-%d-", n) + strings.Repeat("y", 1<<20))
 	case pvBadUtf8:
 		panic(fmt.Sprintf("bad-%d-\xff\xfe", n))
+	case pvDeepStack:
+		deepRecursionThatMakesTheStackTraceOfThePanicLongerThanSixteenKibibytesBecauseTheTracebackPrintsAtMostOneHundredFramesAndEveryFrameMustThereforeBeLongerThanOneHundredAndSixtyFourBytes(150, n, 1, 2, 3)
+	case pvLongError:
+		panic(longError{n})
+	case pvString64K:
+		panic(fmt.Sprintf("s64-%d-", n) + strings.Repeat("w", 64<<10))
 	}
 	panic("unknown panic kind")
 }
@@ -268,6 +290,12 @@ func salient(kind, n int) ([]string, int) {
 		return []string{"big-" + num + "-", "yyyyyyyy"}, 1 << 20
 	case pvBadUtf8:
 		return []string{"bad-" + num + "-"}, 1
+	case pvDeepStack:
+		return []string{"deep-" + num}, 1
+	case pvLongError:
+		return []string{"long-" + num + "-", "zzzzzzzz"}, 40 << 10
+	case pvString64K:
+		return []string{"s64-" + num + "-", "wwwwwwww"}, 64 << 10
 	}
 	return nil, 1 // nil, typed nils, values whose methods panic, chan, func: any non-empty text
 }
@@ -1060,7 +1088,7 @@ func firstLine(b []byte) []byte {
 }
 
 func (rn *runner) emit(s *site, sp *reqSpec, inflight int) {
-	f := []string{"E", strconv.Itoa(sp.mode), strconv.Itoa(s.hkind + 10*s.opt), strconv.Itoa(s.thr), strconv.Itoa(sp.route),
+	f := []string{"E", strconv.Itoa(sp.mode), strconv.Itoa(s.hkind + 10*s.opt + 100*s.derive), strconv.Itoa(s.thr), strconv.Itoa(sp.route),
 		strconv.Itoa(sp.method), strconv.Itoa(sp.no)}
 	var model []action
 	ctSet := false
@@ -1093,6 +1121,7 @@ func (rn *runner) emit(s *site, sp *reqSpec, inflight int) {
 	rn.stats[fmt.Sprintf("mode_%d", sp.mode)]++
 	rn.stats[fmt.Sprintf("hkind_%d", s.hkind)]++
 	rn.stats[fmt.Sprintf("options_addSource%v_colorful%v", s.opt&1 != 0, s.opt&2 != 0)]++
+	rn.stats["logger_"+[]string{"New", "With", "WithGroup", "With.WithGroup.With"}[s.derive]]++
 	rn.stats[fmt.Sprintf("threshold_%d", s.thr)]++
 	rn.stats[fmt.Sprintf("route_matched_%d", sp.route)]++
 	rn.stats[fmt.Sprintf("inflight_le_%d", ceilPow2(inflight))]++
@@ -1204,17 +1233,16 @@ func run(e *hk.Env) error {
 	rn.rng = r
 
 	thresholds := []int{0, 4, 8, 12, 16}
-	// options (addSource, colorful) vary at the Info threshold only
-	sites := map[[3]int]*site{}
-	for hkind := 0; hkind < 3; hkind++ {
-		for _, t := range thresholds {
-			sites[[3]int{hkind, t, 0}] = newSite(hkind, t, 0)
-			if t == 4 {
-				for opt := 1; opt < 4; opt++ {
-					sites[[3]int{hkind, t, opt}] = newSite(hkind, t, opt)
-				}
-			}
+	// sites are created when first used. Key: handler kind, threshold, options (addSource, colorful: varied
+	// at the Info threshold only), derivation of the Logger (New / With / WithGroup / chain: at every threshold)
+	sites := map[[4]int]*site{}
+	siteOf := func(key [4]int) *site {
+		s := sites[key]
+		if s == nil {
+			s = newSite(key[0], key[1], key[2], key[3])
+			sites[key] = s
 		}
+		return s
 	}
 	defer func() {
 		for _, s := range sites {
@@ -1228,7 +1256,7 @@ func run(e *hk.Env) error {
 		{aFlush, 0, 0}, {aFlush, 1, 0},
 		{aError404, 0, 4}, {aError500, 0, 5}, {aRedirect, 0, 0}, {aRespond200, 0, 7}, {aRespondJson, 0, 8}}
 	// panic values tried behind every prefix; all kinds are tried behind prefixes of at most one action
-	corePanics := []int{pvString, pvTypedNil, pvErrPanics, pvWrapAbort, pvUnwrapNil, pvJsonMarshalerPanics, pvNilDeref}
+	corePanics := []int{pvString, pvTypedNil, pvErrPanics, pvWrapAbort, pvUnwrapNil, pvJsonMarshalerPanics, pvNilDeref, pvDeepStack}
 	maxLen := 2
 	if e.Thorough() {
 		maxLen = 3
@@ -1265,13 +1293,9 @@ func run(e *hk.Env) error {
 			}
 			if json.Unmarshal(b, &p) == nil {
 				if hkind, thr, sc, ok := parseCase(p.Case); ok {
-					opt := hkind / 10
+					derive, opt := hkind/100, hkind/10%10
 					hkind %= 10
-					s := sites[[3]int{hkind, thr, opt}]
-					if s == nil {
-						s = newSite(hkind, thr, opt)
-						sites[[3]int{hkind, thr, opt}] = s
-					}
+					s := siteOf([4]int{hkind, thr, opt, derive})
 					for i := 0; i < 40; i++ {
 						var specs []*reqSpec
 						for j := 0; j < 1+i%8; j++ {
@@ -1288,8 +1312,8 @@ func run(e *hk.Env) error {
 
 	inflight := []int{1, 2, 3, 4, 8, 16, 32, 64}
 	optCounter := 0
-	pending := map[[3]int][]*reqSpec{}
-	flush := func(key [3]int, force bool) {
+	pending := map[[4]int][]*reqSpec{}
+	flush := func(key [4]int, force bool) {
 		for {
 			q := pending[key]
 			want := inflight[r.Intn(len(inflight))]
@@ -1299,17 +1323,17 @@ func run(e *hk.Env) error {
 			if want > len(q) {
 				want = len(q)
 			}
-			rn.batch(sites[key], q[:want])
+			rn.batch(siteOf(key), q[:want])
 			pending[key] = q[want:]
 		}
 	}
 	add := func(hkind, thr, mode int, sc []action) {
-		opt := 0
+		optCounter++
+		opt, derive := 0, optCounter%4
 		if thr == 4 {
-			optCounter++
-			opt = optCounter % 4
+			opt, derive = optCounter%4, optCounter/4%4
 		}
-		key := [3]int{hkind, thr, opt}
+		key := [4]int{hkind, thr, opt, derive}
 		pending[key] = append(pending[key], rn.newSpec(r, mode, sanitize(sc)))
 		if len(pending[key]) >= 64 {
 			flush(key, false)
@@ -1383,7 +1407,19 @@ func run(e *hk.Env) error {
 		}
 		add(r.Intn(3), thr, r.Intn(2), sc)
 	}
-	for key := range sites {
+	var keys [][4]int
+	for key := range pending {
+		keys = append(keys, key)
+	}
+	sort.Slice(keys, func(i, j int) bool {
+		for x := 0; x < 4; x++ {
+			if keys[i][x] != keys[j][x] {
+				return keys[i][x] < keys[j][x]
+			}
+		}
+		return false
+	})
+	for _, key := range keys {
 		flush(key, true)
 	}
 	e.Stats["random_scripts"] = nRandom
